@@ -27,6 +27,14 @@
       from each file is also sent through the round trip of (ii) after `to_domain` (notes restricted to plain text,
       singleton annotation lists written as strings: the input domain of DESIGN.md C10).
 
+(iii-b) generated third-party documents (`thirdparty_spec` / `thirdparty_text`): small models printed as SBML text in four
+      dialects — L3V1 fbc-v2 strict (bounds as shared parameters, a decoy inactive objective), L3V1 fbc-v1 (listOfFluxBounds
+      with greaterEqual / lessEqual / equal), L2V4 and L3V1 without fbc (kinetic-law LOWER_BOUND / UPPER_BOUND /
+      OBJECTIVE_COEFFICIENT, omitted stoichiometry = 1 in Level 2, boundary species, reactions without kinetic law) — with
+      prefixed, bare and escaped ids, a species listed twice on one side or on both sides, non-integer stoichiometry,
+      infinite bounds and bounds beyond the defaults.  Every document is first checked with libsbml (an invalid one is
+      counted and skipped); the model read in both id modes is compared with the SPECIFICATION the text was printed from.
+
 Failure keys: one per root cause.  Differences are classified by `gen_io.diff_aspects` (a consequence of a reported cause is
 not reported again) and named "sbml:<aspect>"; the input classes of the defects found on the unchanged tree have their own
 keys (see NOTES_C10.md): sbml:id-digits-escape, sbml:bounds-above-default, sbml:group-gene-member, sbml:gene-empty-name,
@@ -74,8 +82,18 @@ def _quiet():
         lg.propagate = False
 
 
+_OWNER = os.getpid()      # the process that imported the driver; forked workers inherit the value
+
+
 def _tmpdir():
-    return tempfile.mkdtemp(prefix="bcc_C10_", dir="/var/tmp")
+    return tempfile.mkdtemp(prefix=f"bcc_C10_{_OWNER}_", dir="/var/tmp")
+
+
+def _sweep():
+    """remove what workers that died (GLPK abort) could not remove themselves"""
+    import glob
+    for d in glob.glob(f"/var/tmp/bcc_C10_{_OWNER}_*"):
+        shutil.rmtree(d, ignore_errors=True)
 
 
 # ----------------------------------------------------------------------------------------------------------------------
@@ -529,6 +547,260 @@ def check_file(path, roundtrip=True, skip_invalid=False):
     return "checked", n, fails
 
 
+# ----------------------------------------------------------------------------------------------------------------------
+# (iii-b) generated third-party documents in four dialects; the oracle is the specification the text was printed from
+# ----------------------------------------------------------------------------------------------------------------------
+DIALECTS = ["fbc2", "fbc1", "legacy2", "legacy3"]
+TP_VALUES = [-1000.0, 1000.0, 0.0, -10.0, 10.0, 2.5, -0.5, 999999.0, float("inf"), float("-inf"), 1500.0, 2500.0, -2500.0, 7.0]
+TP_STOICH = [1.0, 1.0, 2.0, 3.0, 0.5, 0.25, 59.81, 1e-05, 4.0]
+
+
+def _fmt_num(x):
+    if x == float("inf"):
+        return "INF"
+    if x == float("-inf"):
+        return "-INF"
+    return repr(float(x)) if x != int(x) else str(int(x))
+
+
+def thirdparty_spec(dialect, seed, index):
+    """-> spec dict (JSON-able): what a third-party tool wants to say"""
+    import random
+    rng = random.Random(f"tp/{dialect}/{seed}/{index}")
+    style = rng.choice(["prefixed", "bare", "escaped"])
+    n_s, n_r = rng.randint(1, 4), rng.randint(1, 4)
+    base_s = rng.sample(["glc__D_c", "atp_c", "h2o_e", "a_c", "b_c", "x1_p", "10fthf_c", "pi_c"], n_s)
+    base_r = rng.sample(["PFK", "EX_glc_e", "ATPM", "r1", "r2", "Biomass_core", "2AGPEAT120", "t_x"], n_r)
+    if style == "prefixed":
+        sids, rids = ["M_" + x for x in base_s], ["R_" + x for x in base_r]
+    elif style == "bare":
+        sids, rids = list(base_s), ["rx_" + x if x[0].isdigit() else x for x in base_r]
+        sids = ["s_" + x if x[0].isdigit() else x for x in sids]
+    else:
+        sids = ["M_" + x.replace("__", "__95____95__", 0) + rng.choice(["", "__45__L", "__40__e__41__"]) for x in base_s]
+        rids = ["R_" + x + rng.choice(["", "__46__1", "__91__c__93__"]) for x in base_r]
+    legacy = dialect.startswith("legacy")
+    species = [{"id": sid, "compartment": rng.choice(["c", "e"]),
+                "boundary": bool(legacy and rng.random() < 0.2)} for sid in sids]
+    reactions = []
+    for rid in rids:
+        k = rng.randint(1, min(3, n_s))
+        parts = rng.sample(sids, k)
+        reactants, products = [], []
+        for sp in parts:
+            (reactants if rng.random() < 0.5 else products).append([sp, rng.choice(TP_STOICH)])
+        if rng.random() < 0.25:                       # the same species listed twice on one side
+            side = reactants if reactants else products
+            side.append([side[0][0], rng.choice(TP_STOICH)])
+        if rng.random() < 0.15 and reactants:          # a species on both sides (net coefficient)
+            products.append([reactants[0][0], rng.choice([0.5, 2.0, 5.0])])
+        if dialect == "legacy2":
+            for side in (reactants, products):
+                for ref in side:
+                    if ref[1] == 1.0 and rng.random() < 0.5:
+                        ref[1] = None                  # attribute omitted: the Level 2 default is 1
+        while True:
+            lb, ub = rng.choice(TP_VALUES), rng.choice(TP_VALUES)
+            if lb <= ub and lb != float("inf") and ub != float("-inf"):
+                break
+        if dialect == "legacy2" and rng.random() < 0.15:
+            lb, ub = None, None                        # no kinetic law at all: the reader announces the defaults
+        reactions.append({"id": rid, "reactants": reactants, "products": products, "lb": lb, "ub": ub,
+                          "obj": rng.choice([0.0, 0.0, 0.0, 1.0, -1.0, 2.5])})
+    if not any(r["obj"] for r in reactions):
+        reactions[rng.randrange(n_r)]["obj"] = 1.0
+    if legacy:
+        for r in reactions:
+            if r["lb"] is None:
+                r["obj"] = 0.0
+        if not any(r["obj"] for r in reactions):
+            r = reactions[0]
+            r["lb"], r["ub"], r["obj"] = -5.0, 5.0, 1.0
+    return {"dialect": dialect, "species": species, "reactions": reactions,
+            "direction": "max" if legacy else rng.choice(["max", "min"]),
+            "decoy_objective": (not legacy) and rng.random() < 0.5}
+
+
+def thirdparty_text(spec):
+    d = spec["dialect"]
+    L = []
+    A = L.append
+    A('<?xml version="1.0" encoding="UTF-8"?>')
+    if d == "fbc2":
+        A('<sbml xmlns="http://www.sbml.org/sbml/level3/version1/core" xmlns:fbc="http://www.sbml.org/sbml/level3/version1/fbc/version2" '
+          'level="3" version="1" fbc:required="false">')
+        A('<model id="tp" fbc:strict="true">')
+    elif d == "fbc1":
+        A('<sbml xmlns="http://www.sbml.org/sbml/level3/version1/core" xmlns:fbc="http://www.sbml.org/sbml/level3/version1/fbc/version1" '
+          'level="3" version="1" fbc:required="false">')
+        A('<model id="tp">')
+    elif d == "legacy3":
+        A('<sbml xmlns="http://www.sbml.org/sbml/level3/version1/core" level="3" version="1">')
+        A('<model id="tp">')
+    else:
+        A('<sbml xmlns="http://www.sbml.org/sbml/level2/version4" level="2" version="4">')
+        A('<model id="tp">')
+    l3 = d != "legacy2"
+    A("<listOfCompartments>")
+    for c in sorted({s["compartment"] for s in spec["species"]}):
+        A(f'<compartment id="{c}"' + (' constant="true"' if l3 else "") + "/>")
+    A("</listOfCompartments>")
+    A("<listOfSpecies>")
+    for s in spec["species"]:
+        b = "true" if s["boundary"] else "false"
+        if l3:
+            A(f'<species id="{s["id"]}" compartment="{s["compartment"]}" hasOnlySubstanceUnits="false" boundaryCondition="{b}" '
+              f'constant="false"/>')
+        else:
+            A(f'<species id="{s["id"]}" compartment="{s["compartment"]}" boundaryCondition="{b}"/>')
+    A("</listOfSpecies>")
+    if d == "fbc2":
+        # shared parameters for equal values, as third-party exporters do
+        vals = []
+        for r in spec["reactions"]:
+            for v in (r["lb"], r["ub"]):
+                if v not in vals:
+                    vals.append(v)
+        A("<listOfParameters>")
+        for i, v in enumerate(vals):
+            A(f'<parameter id="bnd_{i}" value="{_fmt_num(v)}" constant="true"/>')
+        A("</listOfParameters>")
+    A("<listOfReactions>")
+    for r in spec["reactions"]:
+        attrs = f'id="{r["id"]}" reversible="{"true" if (r["lb"] is None or r["lb"] < 0) else "false"}"'
+        if l3:
+            attrs += ' fast="false"'
+        if d == "fbc2":
+            attrs += f' fbc:lowerFluxBound="bnd_{vals.index(r["lb"])}" fbc:upperFluxBound="bnd_{vals.index(r["ub"])}"'
+        A(f"<reaction {attrs}>")
+        for tag, side in (("listOfReactants", r["reactants"]), ("listOfProducts", r["products"])):
+            if side:
+                A(f"<{tag}>")
+                for sp, st in side:
+                    a = f'species="{sp}"'
+                    if st is not None:
+                        a += f' stoichiometry="{_fmt_num(st)}"'
+                    if l3:
+                        a += ' constant="true"'
+                    A(f"<speciesReference {a}/>")
+                A(f"</{tag}>")
+        if d.startswith("legacy") and r["lb"] is not None:
+            A('<kineticLaw><math xmlns="http://www.w3.org/1998/Math/MathML"><ci> FLUX_VALUE </ci></math>')
+            lst, par = ("listOfLocalParameters", "localParameter") if l3 else ("listOfParameters", "parameter")
+            A(f"<{lst}>")
+            for pid, v in (("LOWER_BOUND", r["lb"]), ("UPPER_BOUND", r["ub"]), ("OBJECTIVE_COEFFICIENT", r["obj"]),
+                           ("FLUX_VALUE", 0.0)):
+                A(f'<{par} id="{pid}" value="{_fmt_num(v)}"/>')
+            A(f"</{lst}></kineticLaw>")
+        A("</reaction>")
+    A("</listOfReactions>")
+    if d == "fbc1":
+        A("<fbc:listOfFluxBounds>")
+        k = 0
+        for r in spec["reactions"]:
+            if r["lb"] == r["ub"]:
+                A(f'<fbc:fluxBound fbc:id="fb{k}" fbc:reaction="{r["id"]}" fbc:operation="equal" fbc:value="{_fmt_num(r["lb"])}"/>')
+                k += 1
+            else:
+                A(f'<fbc:fluxBound fbc:id="fb{k}" fbc:reaction="{r["id"]}" fbc:operation="greaterEqual" fbc:value="{_fmt_num(r["lb"])}"/>')
+                A(f'<fbc:fluxBound fbc:id="fb{k + 1}" fbc:reaction="{r["id"]}" fbc:operation="lessEqual" fbc:value="{_fmt_num(r["ub"])}"/>')
+                k += 2
+        A("</fbc:listOfFluxBounds>")
+    if d in ("fbc1", "fbc2"):
+        A('<fbc:listOfObjectives fbc:activeObjective="the_obj">')
+        if spec["decoy_objective"]:
+            other = "minimize" if spec["direction"] == "max" else "maximize"
+            A(f'<fbc:objective fbc:id="decoy" fbc:type="{other}"><fbc:listOfFluxObjectives>')
+            A(f'<fbc:fluxObjective fbc:reaction="{spec["reactions"][-1]["id"]}" fbc:coefficient="7"/>')
+            A("</fbc:listOfFluxObjectives></fbc:objective>")
+        A(f'<fbc:objective fbc:id="the_obj" fbc:type="{"maximize" if spec["direction"] == "max" else "minimize"}">')
+        A("<fbc:listOfFluxObjectives>")
+        for r in spec["reactions"]:
+            if r["obj"]:
+                A(f'<fbc:fluxObjective fbc:reaction="{r["id"]}" fbc:coefficient="{_fmt_num(r["obj"])}"/>')
+        A("</fbc:listOfFluxObjectives></fbc:objective></fbc:listOfObjectives>")
+    A("</model></sbml>")
+    return "\n".join(L)
+
+
+def check_thirdparty(spec, text=None):
+    """-> (status, n_checks, [(key, failure)])"""
+    import cobra
+    import libsbml
+    from cobra.util.solver import linear_reaction_coefficients
+    text = text or thirdparty_text(spec)
+    doc = libsbml.readSBMLFromString(text)
+    doc.setConsistencyChecks(libsbml.LIBSBML_CAT_UNITS_CONSISTENCY, False)
+    doc.setConsistencyChecks(libsbml.LIBSBML_CAT_MODELING_PRACTICE, False)
+    doc.checkConsistency()
+    errs = [doc.getError(k).getShortMessage() for k in range(doc.getNumErrors())
+            if doc.getError(k).getSeverity() >= libsbml.LIBSBML_SEV_ERROR]
+    if errs:
+        return f"invalid: {errs[0]}", 0, []          # not a valid third-party file: outside the statement
+    cfg = cobra.Configuration()
+    fails, n = [], 0
+    for mode in ("default", "none"):
+        rmap = (lambda s_: _unescape(s_, "R_")) if mode == "default" else (lambda s_: s_)
+        smap = (lambda s_: _unescape(s_, "M_")) if mode == "default" else (lambda s_: s_)
+        try:
+            m = cobra.io.read_sbml_model(text, **({} if mode == "default" else {"f_replace": {}}))
+        except Exception as e:  # noqa
+            fails.append((f"sbml:thirdparty-read-raises-{type((e.__cause__ or e)).__name__}", f"[{mode}] read_sbml_model raised {_exc_text(e)}"))
+            continue
+        n += 1
+        want_ids = {rmap(r["id"]) for r in spec["reactions"]}
+        allowed = {f"EX_{smap(s_['id'])}" for s_ in spec["species"] if s_["boundary"]}
+        got_ids = {r.id for r in m.reactions}
+        if want_ids - got_ids or (got_ids - want_ids) - allowed:
+            fails.append(("sbml:thirdparty-reaction-ids", f"[{mode}] reactions {sorted(got_ids)} expected {sorted(want_ids)} (+ {sorted(allowed)})"))
+            continue
+        for r in spec["reactions"]:
+            n += 1
+            got = m.reactions.get_by_id(rmap(r["id"]))
+            want_st = {}
+            for side, sign in ((r["reactants"], -1.0), (r["products"], 1.0)):
+                for sp, st in side:
+                    want_st[smap(sp)] = want_st.get(smap(sp), 0.0) + sign * (1.0 if st is None else st)
+            want_st = {k: v for k, v in want_st.items() if v != 0}
+            got_st = {x.id: float(c) for x, c in got.metabolites.items() if c != 0}
+            if set(want_st) != set(got_st) or any(gen_io.r15(want_st[k]) != gen_io.r15(got_st[k]) for k in want_st):
+                fails.append(("sbml:thirdparty-stoichiometry", f"[{mode}] {r['id']}: document says {want_st}, model has {got_st}"))
+            want_b = (cfg.lower_bound if r["lb"] is None else r["lb"], cfg.upper_bound if r["ub"] is None else r["ub"])
+            if (float(got.lower_bound), float(got.upper_bound)) != want_b:
+                fails.append(("sbml:thirdparty-bounds", f"[{mode}] {r['id']}: document says {want_b}, model has {got.bounds}"))
+        n += 1
+        want_obj = {rmap(r["id"]): r["obj"] for r in spec["reactions"] if r["obj"]}
+        got_obj = {r.id: float(c) for r, c in linear_reaction_coefficients(m).items() if c != 0}
+        if want_obj != got_obj:
+            fails.append(("sbml:thirdparty-objective", f"[{mode}] document says {want_obj}, model has {got_obj}"))
+        if m.objective_direction != spec["direction"]:
+            fails.append(("sbml:thirdparty-direction", f"[{mode}] document says {spec['direction']}, model has {m.objective_direction}"))
+    return "checked", n, fails
+
+
+def _unit_thirdparty(args):
+    _quiet()
+    cases, = args
+    n = checked = 0
+    invalid = {}
+    fails = []
+    for dialect, seed, idx in cases:
+        spec = thirdparty_spec(dialect, seed, idx)
+        try:
+            status, k, f = check_thirdparty(spec)
+        except Exception as e:  # noqa
+            status, k, f = "checked", 0, [(f"sbml:thirdparty-check-raises-{type(e).__name__}", f"checking raised {_exc_text(e)}")]
+        n += k
+        if status == "checked":
+            checked += 1
+        else:
+            invalid[f"{dialect}/{seed}/{idx}"] = status
+        for key, msg in f:
+            fails.append({"key": key, "failure": f"generated {dialect} document {idx}: {msg}"[:500],
+                          "replay": {"kind": "thirdparty", "dialect": dialect, "seed": seed, "index": idx, "key": key}})
+    return {"kind": "thirdparty", "n": n, "checked": checked, "invalid": invalid, "fails": fails}
+
+
 def shipped_files(tier):
     out = []
     for d in (REPO / "src" / "cobra" / "data", REPO / "tests" / "data"):
@@ -556,7 +828,7 @@ def _unit_file(args):
 # ----------------------------------------------------------------------------------------------------------------------
 def _dispatch(ka):
     kind, a = ka
-    return {"escapers": _unit_escapers, "models": _unit_models, "file": _unit_file}[kind](a)
+    return {"escapers": _unit_escapers, "models": _unit_models, "file": _unit_file, "thirdparty": _unit_thirdparty}[kind](a)
 
 
 def _chunks(lst, n):
@@ -610,10 +882,15 @@ def run(tier: str, seed: int) -> dict:
     cases = gen_io.cases(tier, seed)
     random.Random(seed).shuffle(cases)
     units += [("models", (c, tier)) for c in _chunks(cases, 6)]
+    n_tp = 1500 if thorough else 150
+    tp = [(d, seed, i) for d in DIALECTS for i in range(n_tp)]
+    units += [("thirdparty", (c,)) for c in _chunks(tp, 50)]
     files = shipped_files(tier)
     units = [("file", (str(p),)) for p in files] + units          # the big files first
     res, crashes = _run_all(units)
-    counts = {"escaper_checks": 0, "models": 0, "model_checks": 0, "file_checks": 0, "files_checked": [], "files_skipped": {}}
+    _sweep()
+    counts = {"escaper_checks": 0, "models": 0, "model_checks": 0, "file_checks": 0, "files_checked": [], "files_skipped": {},
+              "thirdparty_documents": 0, "thirdparty_checks": 0, "thirdparty_invalid": {}}
     fails, samples = [], []
     fails.extend(crashes)
     for r in res:
@@ -625,6 +902,10 @@ def run(tier: str, seed: int) -> dict:
             counts["model_checks"] += r["n"]
             if r["sample"] and len(samples) < 2:
                 samples.append(r["sample"])
+        elif r["kind"] == "thirdparty":
+            counts["thirdparty_documents"] += r["checked"]
+            counts["thirdparty_checks"] += r["n"]
+            counts["thirdparty_invalid"].update(r["invalid"])
         else:
             counts["file_checks"] += r["n"]
             if r["status"] == "checked":
@@ -640,7 +921,7 @@ def run(tier: str, seed: int) -> dict:
 
     def rank(f):
         rp = f["replay"]
-        return (f["key"], ["escaper", "model", "file"].index(rp["kind"]), len(rp.get("id", "")), rp.get("id", ""),
+        return (f["key"], ["escaper", "model", "thirdparty", "file"].index(rp["kind"]), len(rp.get("id", "")), rp.get("id", ""),
                 rp.get("index", 0), rp.get("family", ""), str(rp))
     fails.sort(key=rank)
     kept, seen = [], {}
@@ -651,15 +932,16 @@ def run(tier: str, seed: int) -> dict:
             kept.append(f)
     n_strings = sum(len(ALPHA1) ** k for k in range(1, L + 1)) + sum(len(ALPHA2) ** k for k in range(1, 5))
     return {
-        "evaluations": counts["escaper_checks"] + counts["model_checks"] + counts["file_checks"],
-        "distinct_nontrivial": n_strings * 4 + counts["models"] + len(counts["files_checked"]),
+        "evaluations": counts["escaper_checks"] + counts["model_checks"] + counts["file_checks"] + counts["thirdparty_checks"],
+        "distinct_nontrivial": n_strings * 4 + counts["models"] + len(counts["files_checked"]) + counts["thirdparty_documents"],
         "rule": "escapers: every (string, escaper pair); models: every generated model (distinct by (family, seed, index); each "
                 "goes through 4 channels x 1-2 id modes, compared, re-tripped once per mode, validated once per mode, optimised); "
                 "files: every shipped SBML file except the invalid fixtures, each reaction / objective compared with the ElementTree "
-                "extraction in two id modes and round-tripped",
+                "extraction in two id modes and round-tripped; generated third-party documents (4 dialects): every document that "
+                "libsbml accepts, read in two id modes and compared with its specification",
         "bounds": {"escaper_alphabets": [ALPHA1, ALPHA2], "escaper_max_len": [L, 4], "families": {k: sum(1 for c in cases if c[0] == k)
                                                                                                for k in gen_io.FAMILIES},
-                   "channels": CHANNELS, "id_modes": ["default", "f_replace={} (SId-safe families)"],
+                   "thirdparty_dialects": DIALECTS, "thirdparty_documents_per_dialect": n_tp, "channels": CHANNELS, "id_modes": ["default", "f_replace={} (SId-safe families)"],
                    "max_metabolites": 4, "max_internal_reactions": 5, "failures_total": sum(per.values()),
                    "failures_per_key": per, "wall_s": round(time.time() - t0, 1)},
         "counts": counts,
@@ -687,12 +969,17 @@ def _replay_inner(p):
         _, _, fails = check_file(p["file"])
         hit = [f for f in fails if f["key"] == p.get("key")] or fails
         return hit[0]["failure"] if hit else None
+    if p["kind"] == "thirdparty":
+        _, _, fails = check_thirdparty(thirdparty_spec(p["dialect"], p["seed"], p["index"]))
+        hit = [f for f in fails if f[0] == p.get("key")] or fails
+        return hit[0][1] if hit else None
     raise ValueError(f"unknown replay kind {p['kind']!r}")
 
 
 def replay(payload_replay: dict):
     """runs in a forked child: a replayed case may abort the process (see _run_all)"""
     r = gen_io.run_units(_replay_inner, [payload_replay], nproc=1)[0]
+    _sweep()
     if isinstance(r, gen_io.Crashed):
         return f"the checking process died with exit code {r.exitcode}"
     return r
